@@ -114,6 +114,83 @@ theorem gf_add_group (P : Params) {a b c : Nat} (ha : a < 2 ^ P.bits) (hb : b < 
     add P a 0 = a ∧ neg P 0 = 0 ∧ neg P a < 2 ^ P.bits ∧ add P a (neg P a) = 0 ∧ sub P a b = add P a (neg P b) := by
   refine ⟨Nat.xor_lt_two_pow ha hb, Nat.xor_comm _ _, Nat.xor_assoc _ _ _, Nat.xor_zero _, rfl, ha, Nat.xor_self _, rfl⟩
 
+/-! ### no `u128` overflow inside `Mul` -/
+
+/-- every `u128` value computed by the reduction loop of `Mul`, in program order:
+`b`, `POLYNOMIAL * b`, `(POLYNOMIAL * b) << i` and the updated `product`. -/
+def reduceTrace (bits poly : Nat) : Nat → Nat → List Nat
+  | 0, _ => []
+  | n + 1, x =>
+    let b := x >>> (bits + n)
+    [b, poly * b, (poly * b) <<< n, x ^^^ ((poly * b) <<< n)] ++ reduceTrace bits poly n (x ^^^ ((poly * b) <<< n))
+
+theorem reduceTrace_bound {k p : Nat} (hp1 : 2 ^ k ≤ p) (hp2 : p < 2 ^ (k + 1)) (n x : Nat) (hx : x < 2 ^ (k + n)) :
+    ∀ v ∈ reduceTrace k p n x, v < 2 ^ (k + n + 1) := by
+  induction n generalizing x with
+  | zero => intro v hv; simp [reduceTrace] at hv
+  | succ n ih =>
+    have hmono : 2 ^ (k + n + 1) ≤ 2 ^ (k + (n + 1) + 1) := Nat.pow_le_pow_right (by decide) (by omega)
+    have hxn : x < 2 ^ (k + n + 1) := by rw [Nat.add_assoc]; exact hx
+    have hstep : x >>> (k + n) ≤ 1 ∧ (p * (x >>> (k + n))) <<< n < 2 ^ (k + n + 1) ∧
+        x ^^^ (p * (x >>> (k + n))) <<< n < 2 ^ (k + n) := by
+      by_cases hb : x < 2 ^ (k + n)
+      · have : x >>> (k + n) = 0 := by rw [Nat.shiftRight_eq_div_pow]; exact Nat.div_eq_of_lt hb
+        rw [this]; simp; exact ⟨Nat.two_pow_pos _, hb⟩
+      · have hb' : 2 ^ (k + n) ≤ x := Nat.le_of_not_lt hb
+        have : x >>> (k + n) = 1 := by
+          rw [Nat.shiftRight_eq_div_pow]
+          apply Nat.div_eq_of_lt_le <;> simp [Nat.pow_succ] at * <;> omega
+        rw [this, Nat.mul_one]
+        have hy1 : 2 ^ (k + n) ≤ p <<< n := by
+          rw [Nat.shiftLeft_eq, Nat.pow_add]; exact Nat.mul_le_mul_right _ hp1
+        have hy2 : p <<< n < 2 ^ (k + n + 1) := by
+          rw [Nat.shiftLeft_eq, Nat.add_right_comm, Nat.pow_add]
+          exact Nat.mul_lt_mul_of_pos_right hp2 (Nat.two_pow_pos n)
+        exact ⟨Nat.le_refl 1, hy2, xor_clears_top hb' hxn hy1 hy2⟩
+    obtain ⟨hb1, hsh, hnew⟩ := hstep
+    intro v hv
+    simp only [reduceTrace, List.cons_append, List.nil_append, List.mem_cons] at hv
+    have h1 : 1 < 2 ^ (k + (n + 1) + 1) := Nat.one_lt_two_pow (by omega)
+    have hpb : p * (x >>> (k + n)) < 2 ^ (k + (n + 1) + 1) := by
+      have : p * (x >>> (k + n)) ≤ p * 1 := Nat.mul_le_mul_left _ hb1
+      have : 2 ^ (k + 1) ≤ 2 ^ (k + (n + 1) + 1) := Nat.pow_le_pow_right (by decide) (by omega)
+      omega
+    rcases hv with rfl | rfl | rfl | rfl | hv
+    · omega
+    · exact hpb
+    · omega
+    · have : 2 ^ (k + n) ≤ 2 ^ (k + (n + 1) + 1) := Nat.pow_le_pow_right (by decide) (by omega)
+      omega
+    · exact Nat.lt_of_lt_of_le (ih _ hnew v hv) hmono
+
+/-- **No `u128` overflow in `Mul`**: for canonical operands of a well-formed field (`BITS ≤ 64`) the
+carry-less product and every intermediate value of the reduction loop are below `2^128`
+(indeed below `2^(2·BITS)`), and every multiplier `b` is `0` or `1`. -/
+theorem gf_mul_no_overflow {P : Params} (w : WF P) {a b : Nat} (ha : a < 2 ^ P.bits) (hb : b < 2 ^ P.bits) :
+    clmul P.bits a b < 2 ^ 128 ∧
+    ∀ v ∈ reduceTrace P.bits P.poly (P.bits - 1) (clmul P.bits a b), v < 2 ^ 128 := by
+  have hb' : b < 2 ^ (P.bits - 1 + 1) := by rw [Nat.sub_add_cancel w.bits_pos]; exact hb
+  have hcl : clmul P.bits a b < 2 ^ (P.bits + (P.bits - 1)) := by
+    rw [clmul_eq_cl w.bits_le ha hb]; exact cl_lt ha hb'
+  have hle : 2 ^ (P.bits + (P.bits - 1) + 1) ≤ 2 ^ 128 :=
+    Nat.pow_le_pow_right (by decide) (by have := w.bits_le; have := w.bits_pos; omega)
+  refine ⟨Nat.lt_of_lt_of_le (Nat.lt_trans hcl ?_) hle, ?_⟩
+  · exact Nat.pow_lt_pow_right (by decide) (by omega)
+  · intro v hv
+    exact Nat.lt_of_lt_of_le (reduceTrace_bound w.poly_ge w.poly_lt _ _ hcl v hv) hle
+
+/-- the trace really is the loop: its last `product` is `reduceLoop`'s result -/
+theorem reduceTrace_last (k p n x : Nat) :
+    (reduceTrace k p n x).getLastD x = reduceLoop k p n x := by
+  induction n generalizing x with
+  | zero => rfl
+  | succ n ih =>
+    rw [reduceLoop, ← ih]
+    simp only [reduceTrace, List.cons_append, List.nil_append]
+    cases h : reduceTrace k p n (x ^^^ (p * (x >>> (k + n))) <<< n) with
+    | nil => simp [List.getLastD]
+    | cons y ys => simp [List.getLastD]
+
 /-! ### conversions and serialisation -/
 
 theorem gf_truncate_canonical (P : Params) (v : Nat) :
